@@ -603,8 +603,43 @@ impl Gen {
         }
     }
 
+    fn junk(&mut self) -> Vec<u8> {
+        match self.r.below(4) {
+            0 => vec![],
+            1 => vec![0x80],
+            2 => vec![0xff, 0xff],
+            _ => vec![0xff, 0xff, 0xff, 0xff, 0xff, 0xff, 0xff, 0xff, 0xff, 0x7f],
+        }
+    }
+
+    /// Malformed bytes of `client` ahead of a real message of another client on the same channel, both
+    /// handled by the same server frame.
+    fn inject_ahead_of_honest(&mut self, client: u8) {
+        let n = self.prof.clients;
+        let other = (client + 1 + self.r.below(n as usize - 1) as u8) % n;
+        let nproto = (self.prof.app.auth == 0) as usize;
+        let bytes = self.junk();
+        if nproto == 1 && self.r.chance(30) {
+            self.steps.push(Step::ClientFrame { client: other, dt_ms: 16 });
+            self.steps.push(Step::Inject { client, channel: 1, bytes });
+            self.steps.push(Step::DeliverAll { dir: Dir::C2S, client: other, chan: Chan::ProtoHash });
+        } else {
+            let i = self.r.below(ALL_CEV.len());
+            let ev = ALL_CEV[i];
+            let target = if matches!(ev, CEv::Map) || (ev == CEv::Trig && self.r.chance(50)) { Some(self.slot()) } else { None };
+            self.steps.push(Step::ClientEmit { client: other, ev, target });
+            self.steps.push(Step::ClientFrame { client: other, dt_ms: 16 });
+            self.steps.push(Step::Inject { client, channel: (1 + nproto + i) as u8, bytes });
+            self.steps.push(Step::DeliverAll { dir: Dir::C2S, client: other, chan: Chan::CEv(ev) });
+        }
+    }
+
     fn inject(&mut self) {
         let client = self.r.below(self.prof.clients as usize) as u8;
+        if self.prof.clients >= 2 && self.r.chance(15) {
+            self.inject_ahead_of_honest(client);
+            return;
+        }
         if self.r.chance(45) {
             // Structure-aware: mutate a real message of this client that is still in flight.
             let mut chans = vec![Chan::Acks, Chan::CEv(CEv::Ord), Chan::CEv(CEv::Map), Chan::CEv(CEv::Trig)];
@@ -660,6 +695,14 @@ impl Gen {
             if c == 0 || self.r.chance(60) {
                 self.connect(c);
             }
+        }
+        if self.en_inject && nclients >= 2 && self.prof.app.auth == 0 && self.r.chance(20) {
+            // Malformed handshake bytes of one fresh connection ahead of another one's real hash.
+            let bytes = self.junk();
+            let (a, b) = if self.r.chance(50) { (0u8, 1u8) } else { (1, 0) };
+            self.steps.push(Step::ClientFrame { client: b, dt_ms: 16 });
+            self.steps.push(Step::Inject { client: a, channel: 1, bytes });
+            self.steps.push(Step::DeliverAll { dir: Dir::C2S, client: b, chan: Chan::ProtoHash });
         }
         let len = if self.r.chance(75) { self.r.range(2, 8) } else if self.r.chance(80) { self.r.range(8, 20) } else { self.r.range(20, 45) };
         let mut i = 0;
